@@ -188,7 +188,9 @@ class TBRMMDesignParameters:
     test_ok = specified and testf(value, bound)
     if not test_ok:
       raise ValueError('{} must be {} {}'.format(attr, op, bound))
-    if isinstance(bound, int) and int(value) != value:
+    if isinstance(bound, int) and (isinstance(value, float) and
+                                   not value.is_integer()):
+      # Note: int(value) would raise OverflowError for an infinite value.
       raise ValueError('{} must be an integer'.format(attr))
 
   def _test_value_within_bounds(self, lower, op1, attr, op2, upper):
